@@ -233,6 +233,14 @@ PermitConservation ==
     /\ permits + Cardinality(AliveSet) + HeldByListener + LostAtShutdown = MaxConn
     /\ LostAtShutdown \in {0, 1}
 
+\* Server.tla refines the slot accounting of ServerPermits.tla, whose invariant is proved inductive by Apalache
+\* (unbounded in the length of the history); TLC checks the refinement on the bounded instances
+SP == INSTANCE ServerPermits WITH
+        hpc <- [c \in Conns |-> IF Alive(c) THEN "alive" ELSE IF h[c].pc = "gone" THEN "gone" ELSE "none"],
+        shutdown <- IF shutdown = "no" THEN "no" ELSE "fired",
+        lost <- LostAtShutdown
+PermitsRefinement == SP!Spec
+
 \* C06 / C16: what a client has received is the replies to a prefix of its requests, in order,
 \* each computed by the store at the moment it was applied (checked against the ghost order)
 RECURSIVE RepliesOf(_, _, _)
